@@ -71,7 +71,10 @@ for d in sorted(os.listdir(sd)) if os.path.isdir(sd) else []:
 out.append("")
 
 T_SEEDS = "\n".join(out)
-txt = open(R + "/tools/asbuilt_text.md").read().replace("{{TABLE_CHECKS}}", T_CHECKS).replace("{{TABLE_FIXES}}", T_FIXES).replace("{{TABLE_SEEDS}}", T_SEEDS) + "\n"
+raw = open(R + "/tools/asbuilt_text.md").read()
+for pid in checks:
+    raw = raw.replace("{{N_%s}}" % pid, str(known[pid]))
+txt = raw.replace("{{TABLE_CHECKS}}", T_CHECKS).replace("{{TABLE_FIXES}}", T_FIXES).replace("{{TABLE_SEEDS}}", T_SEEDS) + "\n"
 p = R + "/DESIGN.md"
 s = open(p).read()
 B, E = "<!-- ASBUILT-BEGIN -->", "<!-- ASBUILT-END -->"
